@@ -100,6 +100,26 @@ type vHost struct {
 	dnh  *NodeHostClient
 	addr string
 	api  string
+	cfg  config.NodeHostConfig // kept for RESTART (same directory, same in-memory file system, same address)
+	bg   *vBg                  // HandleMasterRequests running in the background (HANDLEBG .. HANDLEWAIT)
+}
+
+// a HandleMasterRequests call running on its own goroutine, as the request worker of node.go does next to the reporter
+type vBg struct {
+	done   chan struct{}
+	t0     time.Time
+	ms     int64
+	err    interface{}
+	cancel context.CancelFunc
+}
+
+func (b *vBg) running() bool {
+	select {
+	case <-b.done:
+		return false
+	default:
+		return true
+	}
 }
 
 type vEnv struct {
@@ -124,11 +144,12 @@ func vFreeAddr() string {
 	return fmt.Sprintf("127.0.0.1:%d", l.Addr().(*net.TCPAddr).Port)
 }
 
-func vNewNodeHost(i int) (*dragonboat.NodeHost, string) {
+func vNewNodeHost(i int) (*dragonboat.NodeHost, string, config.NodeHostConfig) {
 	var lastErr interface{}
 	for try := 0; try < 5; try++ {
 		addr := vFreeAddr()
 		var nh *dragonboat.NodeHost
+		var used config.NodeHostConfig
 		func() {
 			defer func() {
 				if r := recover(); r != nil {
@@ -141,6 +162,7 @@ func vNewNodeHost(i int) (*dragonboat.NodeHost, string) {
 				RaftAddress:    addr,
 				Expert:         config.ExpertConfig{FS: vfs.NewMem(), LogDB: config.GetTinyMemLogDBConfig()},
 			}
+			used = cfg
 			n, err := dragonboat.NewNodeHost(cfg)
 			if err != nil {
 				lastErr = err
@@ -149,7 +171,7 @@ func vNewNodeHost(i int) (*dragonboat.NodeHost, string) {
 			nh = n
 		}()
 		if nh != nil {
-			return nh, addr
+			return nh, addr, used
 		}
 	}
 	panic(fmt.Sprintf("cannot create NodeHost: %v", lastErr))
@@ -196,6 +218,14 @@ func (e *vEnv) address(tok string) string {
 
 func (e *vEnv) closeHosts() {
 	for _, h := range e.hosts {
+		if h.bg != nil {
+			h.bg.cancel()
+			select {
+			case <-h.bg.done:
+			case <-time.After(30 * time.Second):
+			}
+			h.bg = nil
+		}
 		func() {
 			defer func() { recover() }()
 			h.dc.Stop()
@@ -338,13 +368,16 @@ func (e *vEnv) reportJSON(r *pb.NodeHostInfo) map[string]interface{} {
 	}
 }
 
-func (e *vEnv) emitReports(kind string, h int, err interface{}) {
+func (e *vEnv) emitReports(kind string, h int, err interface{}, extra ...interface{}) {
 	recv, calls := e.d.take()
 	rs := []map[string]interface{}{}
 	for _, r := range recv {
 		rs = append(rs, e.reportJSON(r))
 	}
 	o := map[string]interface{}{"k": kind, "h": h, "received": rs, "calls": calls}
+	for i := 0; i+1 < len(extra); i += 2 {
+		o[extra[i].(string)] = extra[i+1]
+	}
 	if err != nil {
 		o["err"] = fmt.Sprintf("%v", err)
 	}
@@ -398,7 +431,7 @@ func (e *vEnv) parseReq(h *vHost, kv map[string]string) (*pb.NodeHostRequest, ma
 		inst = vU(v)
 	}
 	req := &pb.NodeHostRequest{
-		Change: &pb.Request{Type: typ, ShardId: shard, Members: vUList(kv["m"]), AppName: app, ConfChangeId: ccid},
+		Change:               &pb.Request{Type: typ, ShardId: shard, Members: vUList(kv["m"]), AppName: app, ConfChangeId: ccid},
 		ReplicaIdList:        vUList(kv["ids"]),
 		AddressList:          addrs,
 		InstantiateReplicaId: inst,
@@ -466,11 +499,11 @@ func (e *vEnv) exec(f []string) {
 		n, _ := strconv.Atoi(f[1])
 		e.ctx, e.cancel = context.WithCancel(context.Background())
 		for i := 0; i < n; i++ {
-			nh, addr := vNewNodeHost(i)
+			nh, addr, cfg := vNewNodeHost(i)
 			dc := NewDrummerClient(nh)
 			api := fmt.Sprintf("api-h%d", i)
 			dnh := &NodeHostClient{nh: nh, client: dc, masterServers: []string{e.daddr}, apiAddress: api, ctx: e.ctx}
-			e.hosts = append(e.hosts, &vHost{nh: nh, dc: dc, dnh: dnh, addr: addr, api: api})
+			e.hosts = append(e.hosts, &vHost{nh: nh, dc: dc, dnh: dnh, addr: addr, api: api, cfg: cfg})
 			e.tok[addr] = fmt.Sprintf("h%d", i)
 		}
 		e.emit(map[string]interface{}{"k": "HOSTS", "n": n, "region": DefaultRegion})
@@ -582,6 +615,7 @@ func (e *vEnv) exec(f []string) {
 		loc["h"] = hi
 		e.emit(loc)
 		var perr interface{}
+		during := h.bg != nil && h.bg.running()
 		func() {
 			defer func() {
 				if r := recover(); r != nil {
@@ -592,7 +626,8 @@ func (e *vEnv) exec(f []string) {
 				perr = err
 			}
 		}()
-		e.emitReports("RPT", hi, perr)
+		// the delivery overlapped a running batch iff HandleMasterRequests was running before AND after the report
+		e.emitReports("RPT", hi, perr, "during_handle", during && h.bg != nil && h.bg.running())
 	case "SREPORT": // SREPORT h plog loginfo(s:r,..|-) info;info..   info = shard,replica,isleaderfield,leaderid,cci,pending,members(r:tok|r:tok or -)
 		hi := int(vU(f[1]))
 		h := e.hosts[hi]
@@ -658,6 +693,89 @@ func (e *vEnv) exec(f []string) {
 			o["err"] = fmt.Sprintf("%v", perr)
 		}
 		e.emit(o)
+	case "HANDLEBG": // HANDLEBG h timeout_ms delay_ms : HandleMasterRequests on its own goroutine (the request worker of node.go runs
+		// next to the reporter); returns after delay_ms so that the batch has been taken and is being worked on
+		hi := int(vU(f[1]))
+		h := e.hosts[hi]
+		if h.bg != nil {
+			panic("HANDLEBG while one is running")
+		}
+		ctx, cancel := context.WithTimeout(e.ctx, time.Duration(vU(f[2]))*time.Millisecond)
+		b := &vBg{done: make(chan struct{}), t0: time.Now(), cancel: cancel}
+		h.bg = b
+		dc := h.dc
+		go func() {
+			defer close(b.done)
+			defer func() {
+				if r := recover(); r != nil {
+					b.err = fmt.Sprintf("panic: %v", r)
+				}
+			}()
+			if err := dc.HandleMasterRequests(ctx); err != nil {
+				b.err = err
+			}
+			b.ms = time.Since(b.t0).Milliseconds()
+		}()
+		time.Sleep(time.Duration(vU(f[3])) * time.Millisecond)
+		e.emit(map[string]interface{}{"k": "HANDLEBG", "h": hi, "running": b.running()})
+	case "HANDLEWAIT": // HANDLEWAIT h : the background HandleMasterRequests has returned
+		hi := int(vU(f[1]))
+		h := e.hosts[hi]
+		b := h.bg
+		if b == nil {
+			panic("HANDLEWAIT without HANDLEBG")
+		}
+		select {
+		case <-b.done:
+		case <-time.After(60 * time.Second):
+			panic("background HandleMasterRequests did not return within 60 s")
+		}
+		b.cancel()
+		h.bg = nil
+		o := map[string]interface{}{"k": "HANDLE", "h": hi, "ms": b.ms, "bg": true}
+		if b.err != nil {
+			o["err"] = fmt.Sprintf("%v", b.err)
+		}
+		e.emit(o)
+	case "RESTART": // RESTART h : the NodeHost process goes away and comes back with its disk: NodeHost closed and re-opened on the
+		// same directory / file system / address, new DrummerClient (the queue of received requests is process memory)
+		hi := int(vU(f[1]))
+		h := e.hosts[hi]
+		if h.bg != nil {
+			panic("RESTART while a background HandleMasterRequests is running")
+		}
+		func() {
+			defer func() { recover() }()
+			h.dc.Stop()
+		}()
+		h.nh.Close()
+		var nh *dragonboat.NodeHost
+		var lastErr interface{}
+		for try := 0; try < 20 && nh == nil; try++ {
+			func() {
+				defer func() {
+					if r := recover(); r != nil {
+						lastErr = r
+					}
+				}()
+				n, err := dragonboat.NewNodeHost(h.cfg)
+				if err != nil {
+					lastErr = err
+					return
+				}
+				nh = n
+			}()
+			if nh == nil {
+				time.Sleep(100 * time.Millisecond)
+			}
+		}
+		if nh == nil {
+			panic(fmt.Sprintf("cannot re-open the NodeHost: %v", lastErr))
+		}
+		h.nh = nh
+		h.dc = NewDrummerClient(nh)
+		h.dnh = &NodeHostClient{nh: nh, client: h.dc, masterServers: []string{e.daddr}, apiAddress: h.api, ctx: e.ctx}
+		e.emit(map[string]interface{}{"k": "RESTART", "h": hi})
 	case "DUMP":
 		p := "-"
 		if len(f) > 2 {
